@@ -405,8 +405,8 @@ static NeighSpec genNeigh(Rng& r, int ndim, bool forceUnique = false, bool ucoor
   if (ns.kind == 0) return ns;
   ns.nmaxi  = r.irange(3, 10);
   ns.nmini  = r.irange(1, 3);
-  ns.radius = r.coin(ucoord ? 0.3 : 0.7) ? r.uni(30, 120) : TEST;
-  if (ndim >= 2 && r.coin(ucoord ? 0.7 : 0.3)) { ns.nsect = r.irange(2, 6); ns.nsmax = r.irange(1, 3); }
+  ns.radius = r.coin(ucoord ? 0.1 : 0.7) ? r.uni(30, 120) : TEST;
+  if (ndim >= 2 && r.coin(ucoord ? 0.9 : 0.3)) { ns.nsect = r.irange(2, 6); ns.nsmax = r.irange(1, 3); }
   ns.leaf = r.irange(2, 12);
   if (r.coin(0.5))
   {
@@ -539,6 +539,7 @@ static void opXvalid(Rng& r, Ctx& c)
   // legitimate (if useless) target site, so it keeps a clean location (a target 1e9 away makes MATERN throw
   // "Argument x too large in __bessel_ik" whatever the selection - not a C05 matter, see report)
   o.undefKeepCoord = true;
+  o.pUcoord = 0.16;
   Samples s = genSamples(r, o);
   defineDefaultSpace(ESpaceType::RN, s.ndim);
   int drift = r.irange(-1, 1);
@@ -564,7 +565,8 @@ static void opXvalid(Rng& r, Ctx& c)
   Key K = mkKey("xvalid", nd, s, ns.kind == 2);
   int ncM = dM->getColumnNumber(), ncR = dR->getColumnNumber();
   std::vector<double> snap = snapshot(dM.get(), ncM);
-  TRACE(c, "xvalid %s n=%d kept=%d -> masked run", s.sigtag().c_str(), s.n, s.nkept());
+  TRACE(c, "xvalid %s ndim=%d n=%d kept=%d neigh=%s nmaxi=%d nmini=%d radius=%g nsect=%d nsmax=%d aniso=%d drift=%d -> masked run", s.sigtag().c_str(), s.ndim, s.n, s.nkept(),
+        nd.c_str(), ns.nmaxi, ns.nmini, ns.radius, ns.nsect, ns.nsmax, (int)ns.coeffs.size(), drift);
   int errM = xvalid(dM.get(), model.get(), neigh.get(), kfold, fEst, fStd, fVarz);
   std::vector<int> off;
   for (int i = 0; i < s.n; i++) if (s.cls[i] & MASKED) off.push_back(i);
@@ -1035,14 +1037,14 @@ static void opSimtub(Rng& r, Ctx& c)
         for (int d = 0; d < s.ndim; d++) d2 += (s.x[d][i] - nodeCoord(j, d)) * (s.x[d][i] - nodeCoord(j, d));
         if (d2 < 1e-4) s.x[0][i] += 0.05;
       }
-    nearNode = r.coin(hasUndefValueSamples(s) ? 0.5 : 0.1) && s.nkept() >= 3 && !g.active.empty() && s.by != BY_SELNA && s.by != BY_UCOORD;
+    nearNode = r.coin(hasUndefValueSamples(s) ? 0.3 : 0.1) && s.nkept() >= 3 && !g.active.empty() && s.by != BY_SELNA && s.by != BY_UCOORD;
     if (nearNode)
     {
       int i = s.kept[r.irange(0, s.nkept() - 1)], j = g.active[r.irange(0, (int)g.active.size() - 1)];
       for (int d = 0; d < s.ndim; d++) s.x[d][i] = nodeCoord(j, d) + (d == 0 ? 2e-5 : 0.);
     }
   }
-  bool linear = r.coin(hasUndefValueSamples(s) ? 0.35 : 0.15) && !avoid("linear", AVOID_LINEAR) && s.by != BY_SELNA && !nearNode; // (one exotic feature at a time)
+  bool linear = r.coin(hasUndefValueSamples(s) ? 0.3 : 0.15) && !avoid("linear", AVOID_LINEAR) && s.by != BY_SELNA && !nearNode; // (one exotic feature at a time)
   // (a field reduced to ONE point has a zero extension: the intrinsic generator then never returns, masks or not)
   if (linear && (cond ? s.nkept() + (int)g.active.size() : (int)t.active.size()) < 3) linear = false;
   if (linear)
@@ -1600,7 +1602,7 @@ static const OpDef OPS[] = {
   {"vario", opVario, 3},
   {"stats", opStats, 4},
   {"covmat", opCovMat, 3},
-  {"simtub", opSimtub, 3},
+  {"simtub", opSimtub, 4},
   {"migrate", opMigrate, 2},
   {"db-predicates", opDbPredicates, 1},
   {"anam", opAnam, 1},
